@@ -205,7 +205,7 @@ WithTrunc(n, msl, tc) ==
   ELSE tc
 TakeN(k, s) == IF Len(s) <= k THEN s ELSE SubSeq(s, 1, k)
 
-RECURSIVE PVC(_, _), PVT(_, _, _), CallAlt(_, _, _, _), PContainer(_, _, _, _)
+RECURSIVE PVC(_, _), PVT(_, _, _), CallAlt(_, _, _, _), PContainer(_, _, _, _), PStd(_, _)
 \* (\o <<>> forces TLC's lazy function value into a tuple: otherwise every docs[i] re-runs PV)
 PVSeq(vs, ctx) == [i \in 1..Len(vs) |-> PVC(vs[i], ctx)] \o <<>>
 
@@ -302,6 +302,32 @@ PContainer(v, ctx, tc, fn) ==
                  ELSE IF Len(parts2) = 0 THEN CallAlt(ctx, fn, <<>>, <<>>)
                  ELSE BuildFncall(ctx, fn, <<doc>>, <<>>, TRUE, NONE)
 
+\* pretty_stdlib.py (and pretty_namedtuple / pretty_simplenamespace): the container printers of the standard library,
+\* each a pretty_call_alt of the type's qualified name.  v = <<"std", kind, printed name, a, b>>
+\*   OrderedDict  a = pairs                       -> Name([(k, v), ...])
+\*   deque        a = items, b = <<>> | <<maxlen>> -> Name([...], maxlen=n)
+\*   Counter      a = pairs in most_common() order -> Name({...});   mappingproxy likewise
+\*   defaultdict  a = pairs, b = factory term      -> Name(factory, {...})
+\*   ChainMap     a = the maps (dict terms)        -> Name(map, ...) or Name() when there is nothing in it
+\*   exception    a = exc.args                     -> Name(arg, ...)
+\*   namedtuple   a = << <<field, value>>, ... >>  -> Name(field=value, ...);  SimpleNamespace: attributes sorted by name
+MaxlenName == <<109, 97, 120, 108, 101, 110>>
+PStd(v, ctx) ==
+  LET fn == Ann(NAME_FUNCTION, Txt(v[3]))
+      kind == v[2]
+  IN CASE kind = "OrderedDict" ->
+            CallAlt(ctx, fn, << <<"list", [i \in 1..Len(v[4]) |-> <<"tuple", v[4][i]>>] \o <<>> >> >>, <<>>)
+       [] kind = "deque" ->
+            CallAlt(ctx, fn, << <<"list", v[4]>> >>, IF Len(v[5]) = 0 THEN <<>> ELSE << <<MaxlenName, v[5][1]>> >>)
+       [] kind \in {"Counter", "mappingproxy"} -> CallAlt(ctx, fn, << <<"dict", v[4]>> >>, <<>>)
+       [] kind = "defaultdict" -> CallAlt(ctx, fn, <<v[5], <<"dict", v[4]>>>>, <<>>)
+       [] kind = "ChainMap" ->
+            IF Len(v[4]) = 0 \/ (Len(v[4]) = 1 /\ Len(v[4][1][2]) = 0) THEN CallAlt(ctx, fn, <<>>, <<>>)
+            ELSE CallAlt(ctx, fn, v[4], <<>>)
+       [] kind = "exception" -> CallAlt(ctx, fn, v[4], <<>>)
+       [] kind \in {"namedtuple", "SimpleNamespace"} -> CallAlt(ctx, fn, <<>>, v[4])
+       [] OTHER -> <<"unmodelled">>
+
 \* the printers; tc = trailing comment (NONE or non-empty text); printers that do not take one drop it (with a warning)
 PVT(v, ctx, tc) ==
   CASE v[1] = "int" ->
@@ -337,6 +363,7 @@ PVT(v, ctx, tc) ==
               [] OTHER -> <<"unmodelled">>
     \* a user type whose printer is  pretty_call(ctx, <name>, *args, **kwargs):  <<"call", name, args, kwargs>>
     [] v[1] = "call" -> CallAlt(ctx, Ann(NAME_FUNCTION, Txt(v[2])), v[3], v[4])
+    [] v[1] = "std" -> PStd(v, ctx)
     [] OTHER -> <<"unmodelled">>
 
 \* a str dict key at depth 0 of the dict's context would print str(...): pretty_str checks
